@@ -737,6 +737,7 @@ def goFuncSig (id : String) : Option Sig :=
   else if id == "add3" then some ⟨[.int, .int, .int], none⟩
   else if id == "cat" then some ⟨[.string], some .string⟩
   else if id == "ident" then some ⟨[.any], none⟩
+  else if id == "shout" then some ⟨[.string], none⟩
   else if id == "sum" then some ⟨[], some .int⟩
   else if id == "stage" then some ⟨[.int, .string], none⟩
   else if id == "replace" then some ⟨[.string, .string, .string, .int], none⟩
@@ -806,6 +807,7 @@ def applyGoFunc (id : String) (args : List Val) : P (Val × List LogE) :=
   | "hasSuffix", [.str s, .str p] => pure (.bool (hasSuffixB s p), [])
   | "repeat", [.str s, .int n] =>
     if n < 0 then crash "strings: negative Repeat count"
+    else if s.isEmpty then pure (.str [], [])
     else if n * s.length > 100000 then unsupported "huge repeat" else pure (.str (repeatB n.toNat s), [])
   | "probe", [.int id, v] => pure (.iface (Val.indirectInterface v), [.probe id])
   | "probeb", [.int id, .bool t] => pure (.bool t, [.probe id])
@@ -816,6 +818,7 @@ def applyGoFunc (id : String) (args : List Val) : P (Val × List LogE) :=
       | .str s => pure (acc ++ s)
       | _ => crash "unreachable cat arg") a) >>= fun s => pure (.str s, [])
   | "ident", [v] => pure (.iface (Val.indirectInterface v), [])
+  | "shout", [.str s] => pure (.str (s ++ [33]), [])
   | "stage", [.int id, .str s] => pure (.str (s ++ intToDec id), [.probe id])
   | "sum", xs =>
     (xs.foldlM (fun acc v => match v with
